@@ -4,7 +4,7 @@ import re
 
 from .oiv import *  # noqa: F401,F403
 from engine.woodlint.core import table
-from engine.woodlint.db import Pos, as_relation, show
+from engine.woodlint.db import Pos, as_relation, show, E
 from engine.woodlint.unsafeinv import inventory
 
 PROPERTY = 'C05'
@@ -399,6 +399,9 @@ def r5_8(cx):
     cx.check(cw <= {AN + '::increment_count', AN + '::decrement_count', AN + '::merge_ref_or_create'} and cw, 'count-writers', None, '%s:%s' % (an['file'], an['line']),
              'Anchor.count is written only by increment_count / decrement_count / merge_ref_or_create', fail_detail='Anchor.count written in %s' % sorted(cw))
     mc = [(pos, mr.rvalue_expr(rv).strip()) for pos, pl, rv in mr.stores() if pl['p'] and pl['p'][-1].get('n') == 'count' and rv is not None]
+    if not mc:
+        # the same bump spelled anchor.increment_count() (its arithmetic is checked below)
+        mc = [(c.pos, E('binop', op='Add', a=c.arg(0), b=E('const', info={'int': 1, 'ty': 'usize'}))) for c in mr.calls(AN + '::increment_count')]
     okmc = len(mc) == 1 and mc[0][1].kind == 'binop' and mc[0][1].op == 'Add' and mc[0][1].b.is_const_int(1) and \
         any(v is True and e.strip().kind == 'call' and e.strip().op.endswith('ptr_eq') and len(e.strip().args) == 2
             and any(n.kind == 'proj' and n.info.get('n') == 'chunk' for n in e.strip().args[0].walk()) and 1 in e.strip().args[0].params()
@@ -424,7 +427,7 @@ def r5_8(cx):
     st = [(pos, rel.rvalue_expr(rv).strip()) for pos, pl, rv in rel.stores() if pl['p'] and pl['p'][-1].get('n') == 'bump' and rv is not None]
     okr = len(st) == 1 and is_call(st[0][1], 'sub') and is_param_field(st[0][1].args[0], 'bump') and st[0][1].args[1].has_call('ioslice_components')
     if okr:
-        okr = any((rr := as_relation((e, v))) and rr[0] == 'Eq' and any(is_param_field(n, 'bump') for n in rr[1].walk()) and rr[2].strip().kind == 'binop' and rr[2].strip().op == 'Add'
+        okr = any((rr := as_relation((e, v))) and rr[0] == 'Eq' and field_or_accessor(prog, rr[1], 'bump') and rr[2].strip().kind == 'binop' and rr[2].strip().op == 'Add'
                   and rr[2].has_call('ioslice_components') for e, v, ed in rel.facts_at(st[0][0].bb))
     cx.check(okr, 'rewind-exact', rel, None, 'bump -= len only where bump == base + len of the released slice (asserted)', fail_detail='release_or_die rewinds the bump pointer without checking that the slice ends at it')
     ch = prog.adt(CH)
